@@ -50,3 +50,12 @@ def bounded_product(w, lo, hi, h, c=None):
   """lo <= w <= hi and h >= 0  =>  lo*h <= w*h <= hi*h   (two nonneg-product instances)."""
   nonneg_product(P.lift(w) - lo, h, c)
   nonneg_product(P.lift(hi) - w, h, c)
+
+
+def inverse_power(l, d, c=None):
+  """l > 0  =>  l^d * inv(l)^d == 1 and inv(l)^d > 0."""
+  c = c or C.cur()
+  a, = _abs_vars(1, 'ip')
+  _once(c, 'a>0 => a^%d*(1/a)^%d==1' % (d, d), (a > 0).implies(((a ** d) * (E.inv(a) ** d)).eq(1) & (E.inv(a) ** d > 0)))
+  l = P.lift(l)
+  c.assume((l > 0).implies(((l ** d) * (E.inv(l) ** d)).eq(1) & (E.inv(l) ** d > 0)), 'instance: inverse power')
